@@ -15,6 +15,7 @@ import (
 	"bytes"
 	"fmt"
 	"math/rand"
+	"runtime/debug"
 	"sort"
 	"strings"
 	"testing"
@@ -23,6 +24,25 @@ import (
 
 	"verif/internal/mon"
 )
+
+// stack is the panicking goroutine's stack, bounded for the replay file.
+func stack() string {
+	b := debug.Stack()
+	if len(b) > 4000 {
+		b = b[:4000]
+	}
+	return string(b)
+}
+
+// panicKey is the narrow class of a panic: its message without operands
+// ("panic-runtime-error-slice-bounds-out-of-range").
+func panicKey(p any) string {
+	m := fmt.Sprint(p)
+	if i := strings.IndexAny(m, "[0123456789\""); i >= 0 {
+		m = m[:i]
+	}
+	return "panic-" + strings.Join(strings.FieldsFunc(m, func(r rune) bool { return !(r >= 'a' && r <= 'z' || r >= 'A' && r <= 'Z') }), "-")
+}
 
 // ---------------------------------------------------------------- model
 
@@ -451,7 +471,7 @@ func TestC28(t *testing.T) {
 	r.Assume("has '=' of a parsed Args is read from its own QueryString() tokens (no accessor exists); entries with empty key and empty value are excluded from the round-trip comparison as the statement says and counted as skipped_empty_entries")
 	r.Assume("byte slices handed to the *Bytes* variants are overwritten right after the call: Args is expected to copy its inputs (README: all functions copy)")
 
-	n := r.N(500_000, 8_000_000)
+	n := r.N(300_000, 5_000_000)
 	maxOps := r.N(12, 24)
 	const block = 1000
 	blocks := (n + block - 1) / block
@@ -499,7 +519,7 @@ func TestC28(t *testing.T) {
 				defer func() {
 					if p := recover(); p != nil {
 						failed = true
-						r.Violation(i, "panic", fmt.Sprintf("panic %v after ops %v", p, ops), map[string]any{"ops": fmt.Sprint(ops), "stack": mon.Stacks()[:4000]})
+						r.Violation(i, panicKey(p), fmt.Sprintf("panic %v after ops %v", p, ops), map[string]any{"ops": fmt.Sprint(ops), "stack": stack()})
 					}
 				}()
 				for s := 0; s < nops && !failed; s++ {
